@@ -134,7 +134,7 @@ def execute(case, scratch):
     finally:
         W.cleanup(top)
 
-TIERS = {"quick": {"runs": 1500, "wall_cap": 420}, "thorough": {"runs": 40000, "wall_cap": 3000}}
+TIERS = {"quick": {"runs": 2500, "wall_cap": 420}, "thorough": {"runs": 60000, "wall_cap": 3000}}
 RULE = ("one run = one generated multi-directory world (same header name in 1..4 directories, quote/angle/"
         "computed includes, guarded/once/unguarded re-inclusion-sensitive headers, -I/-isystem/-include in "
         "generated order) executed (a) plainly, (b) with include-memo eviction at scheduler-chosen look-ups, "
